@@ -135,6 +135,25 @@ def build_seqmc():
                 if f.endswith(".go"):
                     rel = os.path.relpath(os.path.join(root, f), inpkg)
                     ov[os.path.join(REPO, rel)] = os.path.join(root, f)
+    # generated code for C17: the repository's own generator (cmd/spec of the current tree) turns seqmc/gen/*/x.spec into
+    # Go packages under zzverif/seqmc/<name>
+    gen_src = os.path.join(VERIF, "seqmc", "gen")
+    if os.path.isdir(gen_src):
+        binp = os.path.join(SCRATCH, "bin", "spec")
+        os.makedirs(os.path.dirname(binp), exist_ok=True)
+        r = sh(["go", "build", "-o", binp, "./cmd/spec"], cwd=REPO, env=goenv(), capture_output=True, text=True)
+        if r.returncode != 0:
+            log(r.stderr[-3000:])
+            raise HarnessError("cmd/spec does not build")
+        for name in sorted(os.listdir(gen_src)):
+            dst = os.path.join(SCRATCH, "seqgen", name)
+            shutil.rmtree(dst, ignore_errors=True)
+            os.makedirs(dst)
+            r = sh([binp, "generate", "--skip-rpc", os.path.join(gen_src, name), dst], capture_output=True, text=True)
+            if r.returncode != 0:
+                log(r.stdout[-2000:] + r.stderr[-2000:])
+                raise HarnessError("spec generate failed for seqmc/gen/" + name)
+            add_tree(ov, dst, os.path.join(REPO, "zzverif", "seqmc", name))
     op = write_overlay("seqmc", ov)
     return go_build(op, "./zzverif/seqmc/main", os.path.join(SCRATCH, "bin", "seqmc"))
 
